@@ -134,6 +134,49 @@ pub fn run(reg: &dyn Registry, ctx: &Ctx) -> Outcome {
                 }
             }
 
+            // (b2) snapshots around call counts 2^k (per-object counters that a snapshot could lose): after
+            // 2^k - 2 .. 2^k + 1 native calls for k = 8, 16 (and 20 in the thorough tier), looking 2^k ahead
+            for k in if thorough { vec![8u32, 16, 20] } else { vec![8, 16] } {
+                let base = 1usize << k;
+                // 16 dense seeds (a counter-triggered action may depend on the state it meets)
+                for dseed in chain_seeds(*ty, ctx.seed ^ 0x11DD ^ k as u64, if k <= 16 { 16 } else { 2 }) {
+                let mk = SeedMaker { ty: *ty, seed: dseed };
+                let mk = &mk;
+                let mut g = mk.make();
+                for _ in 0..base - 2 {
+                    native(&mut g, info.word_bits);
+                }
+                for off in 0..4usize {
+                    // snapshot after base-2+off calls; the restored generator must agree for the next 2^k+4 calls
+                    match roundtrip(*ty, g.as_ref()) {
+                        Ok((_, mut r)) => {
+                            ctx.add("crash_points", 1);
+                            let mut o = g.clone_box();
+                            let look = base + 4;
+                            let mut bad = None;
+                            for j in 0..look {
+                                let (a, b) = (native(&mut o, info.word_bits), native(&mut r, info.word_bits));
+                                if a != b {
+                                    bad = Some(j);
+                                    break;
+                                }
+                            }
+                            ctx.add("transitions", 2 * look as u64);
+                            if let Some(j) = bad {
+                                ctx.violation(
+                                    &format!("C11:{}:deep-crash-point", info.name),
+                                    &format!("{}: snapshot after {} native calls: the restored generator diverges from the original {} calls later", info.name, base - 2 + off, j),
+                                    json!({"kind":"snapshot","type":info.name,"maker":mk.describe(),"ops":ops_json(&vec![if info.word_bits == 32 { Op::U32 } else { Op::U64 }; base - 2 + off])}),
+                                );
+                            }
+                        }
+                        Err(e) => ctx.violation(&format!("C11:{}:roundtrip", info.name), &format!("{}: snapshot after {} native calls: {}", info.name, base - 2 + off, e), json!({"kind":"note"})),
+                    }
+                    native(&mut g, info.word_bits);
+                }
+                }
+            }
+
             // (c) snapshot of the initial state for every seed of the structured alphabet
             let len = info.seed_len;
             let mut seeds = vec![alphabet::zero(len)];
@@ -163,6 +206,80 @@ pub fn run(reg: &dyn Registry, ctx: &Ctx) -> Outcome {
             }
         })
         .collect();
+    // ---- thorough: a snapshot after 2^32 output words (block counters of the buffered generators pass 2^24)
+    if thorough {
+        for name in ["IsaacRng", "Isaac64Rng"] {
+            let Some(ty) = reg.get(name) else { continue };
+            let mk = SeedMaker { ty, seed: standard_seeds(ty, ctx.seed)[1].clone() };
+            let mut g = mk.make();
+            let mut buf = vec![0u8; 1 << 20];
+            let total_bytes: u64 = (1u64 << 32) * (ty.info().word_bits as u64 / 8) + 4 * 77;
+            let mut left = total_bytes;
+            while left > 0 {
+                let n = left.min(buf.len() as u64) as usize;
+                g.fill_bytes(&mut buf[..n]);
+                left -= n as u64;
+            }
+            ctx.add("snapshots", 1);
+            match roundtrip(ty, g.as_ref()) {
+                Ok((_, mut r)) => {
+                    for k in 0..600 {
+                        let (x, y) = (g.next_u32(), r.next_u32());
+                        if x != y {
+                            ctx.violation(&format!("C11:{}:very-deep", name), &format!("{}: snapshot after 2^32 words: restored generator diverges at next_u32 #{}", name, k), json!({"kind":"note"}));
+                            break;
+                        }
+                    }
+                }
+                Err(e) => ctx.violation(&format!("C11:{}:very-deep", name), &format!("{}: snapshot after 2^32 output words ({} bytes): {}", name, total_bytes, e), json!({"kind":"note","maker":mk.describe(),"bytes_drawn":total_bytes})),
+            }
+        }
+    }
+    // ---- snapshots at rare reachable events (found on the reference model): around the special word and
+    // at the boundaries of the block that holds it
+    for (ty, evs) in rare_events(reg, ctx.seed, thorough) {
+        let info = ty.info();
+        if !info.has_serde {
+            continue;
+        }
+        let b = info.block_words.unwrap_or(1) as u64;
+        let jobs: Vec<(&crate::rare::Event, u64)> = evs
+            .iter()
+            .flat_map(|e| {
+                let blk = e.word_index / b * b;
+                let mut v: Vec<u64> = vec![e.word_index.saturating_sub(1), e.word_index, e.word_index + 1, blk, blk + 1, blk + b - 1, blk + b];
+                v.sort();
+                v.dedup();
+                v.into_iter().map(move |p| (e, p))
+            })
+            .collect();
+        let res: Vec<Option<(String, serde_json::Value)>> = jobs
+            .par_iter()
+            .map(|(e, p)| {
+                let mk = SkipMaker { ty, seed: e.seed.clone(), skip_words: *p };
+                let g = mk.make();
+                let rp = json!({"kind":"snapshot","type":info.name,"maker":mk.describe(),"ops":[],"event":crate::rare::describe(e)});
+                match roundtrip(ty, g.as_ref()) {
+                    Err(er) => Some((format!("{}: snapshot {} words into the stream of seed {} (a block with {}): {}", info.name, p, hex(&e.seed), e.what, er), rp)),
+                    Ok((_, mut r)) => {
+                        let mut o = g;
+                        for k in 0..(2 * b + 8) {
+                            let (x, y) = (o.next_u32(), r.next_u32());
+                            if x != y {
+                                return Some((format!("{}: snapshot {} words into the stream of seed {} (a block with {}): next_u32 #{} of the restored generator is {:#x}, the original's {:#x}", info.name, p, hex(&e.seed), e.what, k, y, x), rp));
+                            }
+                        }
+                        None
+                    }
+                }
+            })
+            .collect();
+        ctx.add("rare_event_snapshots", jobs.len() as u64);
+        ctx.add("snapshots", jobs.len() as u64);
+        for r in res.into_iter().flatten() {
+            ctx.violation(&format!("C11:{}:rare-event", info.name), &r.0, r.1);
+        }
+    }
     // ---- value-directed probes for the buffered generators -------------------------------------
     // A state whose *buffered* words have special values (a zero / all-ones word at the first, last or
     // next-to-be-read slot) is reachable but rare (1 in 2^32 blocks). It is first built by editing the
